@@ -13,7 +13,8 @@ use zvharness::*;
 fn a(v: &[&str]) -> Vec<String> { v.iter().map(|s| s.to_string()).collect() }
 
 #[derive(Clone, Debug)]
-struct Flag { long: String, takes_value: bool, optional_value: bool }
+struct Flag { long: String, takes_value: bool, optional_value: bool, /// the enumerated values clap knows plus every word of the flag's own help text
+    words: Vec<String> }
 
 fn flags_of(sub: &str) -> Vec<Flag> {
     let cmd = Cli::command();
@@ -24,7 +25,11 @@ fn flags_of(sub: &str) -> Vec<Flag> {
         if long == "help" || long == "version" { continue; }
         let takes = arg.get_action().takes_values();
         let optional = arg.get_num_args().map(|r| r.min_values() == 0).unwrap_or(false);
-        v.push(Flag { long: long.to_string(), takes_value: takes, optional_value: optional });
+        let mut words: Vec<String> = arg.get_possible_values().iter().map(|p| p.get_name().to_string()).collect();
+        let help = format!("{} {}", arg.get_help().map(|h| h.to_string()).unwrap_or_default(), arg.get_long_help().map(|h| h.to_string()).unwrap_or_default());
+        words.extend(help.split(|c: char| !(c.is_ascii_alphanumeric() || c == '-' || c == '_')).filter(|w| w.len() >= 2 && w.len() <= 24).map(|w| w.to_string()));
+        words.sort(); words.dedup();
+        v.push(Flag { long: long.to_string(), takes_value: takes, optional_value: optional, words });
     }
     v.sort_by(|a, b| a.long.cmp(&b.long));
     v.dedup_by(|a, b| a.long == b.long);
@@ -115,6 +120,23 @@ fn main() {
                 let vals: Vec<&String> = if f.takes_value { pool.iter().collect() } else { vec![&pool[0]] };
                 for v in vals { let mut args = base.clone(); args.extend(flag_args(f, v)); jobs.push((args, stdin.clone())); }
                 if f.optional_value { let mut args = base.clone(); args.push(format!("--{}", f.long)); jobs.push((args, stdin.clone())); }
+            }
+        }
+        // spellings of documented values: every word of a flag's own help text (its enumerated values are among them), as
+        // written and lower-cased (valid values), in upper, title and alternating case, abbreviated to its first two
+        // characters and wrapped in white space, as that flag's value - in the first context and with a stdin document
+        for (base, stdin) in [&contexts[0], &contexts[2]] {
+            for f in &flags {
+                if !f.takes_value || f.long == "source" || f.long == "directory" { continue; }
+                let mut vals: Vec<String> = vec![];
+                for w in &f.words {
+                    let lower = w.to_lowercase();
+                    let title: String = lower.chars().enumerate().map(|(i, c)| if i == 0 { c.to_ascii_uppercase() } else { c }).collect();
+                    let alt: String = lower.chars().enumerate().map(|(i, c)| if i % 2 == 1 { c.to_ascii_uppercase() } else { c }).collect();
+                    vals.extend([w.clone(), lower.clone(), lower.to_uppercase(), title, alt, lower.chars().take(2).collect(), format!(" {lower}"), format!("{lower} ")]);
+                }
+                vals.sort(); vals.dedup();
+                for v in vals { let mut args = base.clone(); args.extend(flag_args(f, &v)); jobs.push((args, stdin.clone())); }
             }
         }
         // all pairs of flags x small pool, first context (and stdin context in thorough)
@@ -341,7 +363,7 @@ fn main() {
     cov.transitions = cov.evaluations;
     cov.traces_validated = cov.evaluations;
     cov.distinct_nontrivial = all.get("zerv_error") + all.get("usage_error") + all.get("process_failed") + all.get("fault_plans");
-    cov.rule = format!("(a) flags read from Cli::command() at run time; for version and flow in 4 source contexts every single flag x a {}-value adversarial pool, every pair of flags x a {}-value pool, malformed stdin documents; 133 custom precedence orders (every single, every ordered pair, every all-but-one, reversed) on stdin and via --schema-ron x every bump/override flag x a 5-value pool; render/check on {} nasty version strings x formats x templates; every template function x argument pool singles, pairs and (value, pair) triples: {} in-process runs under catch_unwind; (b) a strided slice of those through the real binary plain, with -v and under RUST_LOG=trace / a malformed RUST_LOG / ZERV_FORCE_RUST_LOG_OFF (stdout and status identical, exit/stream protocol), help/version/llm-help; (c) git faults: for each of 7 repository scenarios (incl. a shallow repository) x [version, flow] the shim records the N git calls of a fault-free run, then every k<=N x 17 fault modes (6 failure modes: exit 1, exit 128, garbage, empty, SIGKILL, silent exit 1; 11 hostile-content modes with status 0: negative / 20-digit / i64::MAX / 2^32 / zero numbers, blank, two hash lines, non-UTF-8 tag names, a 200 KB line, a tag list, stderr noise) (deviation 1){}, plus git missing / -C to a missing path / file / non-repository; (d) through the binary only: 21 recursive input shapes (template parentheses / if / for / + / and / function / filter / ~ / array / path / not nesting or chains, custom JSON, --schema-ron, --branch-rules, stdin documents, long SemVer / PEP 440 strings) at sizes 8, 64, 512, 4096 (thorough also 16384, 60000) and stdin byte contents (invalid UTF-8, NUL, BOM, CRLF, Latin-1): zerv must terminate without abort; (e) 49 repositories whose branch name is 40-240 bytes of 1/2/3/4-byte characters at every alignment (half of them with 40 long non-ASCII tags on the tagged commit) x version/flow x plain / -v / RUST_LOG=trace / --verbose+RUST_LOG=debug. non-trivial = runs that end in an error path plus fault plans", pool.len(), spool.len(), versions.len(), jobs.len(), if quick { "" } else { " and every pair of fault points in 2 modes (deviation 2)" });
+    cov.rule = format!("(a) flags read from Cli::command() at run time; for version and flow in 4 source contexts every single flag x a {}-value adversarial pool, every pair of flags x a {}-value pool, every word of each flag's own help text (its enumerated values among them) as that flag's value in 8 spellings (as written, lower, upper, title and alternating case, two-letter abbreviation, leading / trailing blank); malformed stdin documents; 133 custom precedence orders (every single, every ordered pair, every all-but-one, reversed) on stdin and via --schema-ron x every bump/override flag x a 5-value pool; render/check on {} nasty version strings x formats x templates; every template function x argument pool singles, pairs and (value, pair) triples: {} in-process runs under catch_unwind; (b) a strided slice of those through the real binary plain, with -v and under RUST_LOG=trace / a malformed RUST_LOG / ZERV_FORCE_RUST_LOG_OFF (stdout and status identical, exit/stream protocol), help/version/llm-help; (c) git faults: for each of 7 repository scenarios (incl. a shallow repository) x [version, flow] the shim records the N git calls of a fault-free run, then every k<=N x 17 fault modes (6 failure modes: exit 1, exit 128, garbage, empty, SIGKILL, silent exit 1; 11 hostile-content modes with status 0: negative / 20-digit / i64::MAX / 2^32 / zero numbers, blank, two hash lines, non-UTF-8 tag names, a 200 KB line, a tag list, stderr noise) (deviation 1){}, plus git missing / -C to a missing path / file / non-repository; (d) through the binary only: 21 recursive input shapes (template parentheses / if / for / + / and / function / filter / ~ / array / path / not nesting or chains, custom JSON, --schema-ron, --branch-rules, stdin documents, long SemVer / PEP 440 strings) at sizes 8, 64, 512, 4096 (thorough also 16384, 60000) and stdin byte contents (invalid UTF-8, NUL, BOM, CRLF, Latin-1): zerv must terminate without abort; (e) 49 repositories whose branch name is 40-240 bytes of 1/2/3/4-byte characters at every alignment (half of them with 40 long non-ASCII tags on the tagged commit) x version/flow x plain / -v / RUST_LOG=trace / --verbose+RUST_LOG=debug. non-trivial = runs that end in an error path plus fault plans", pool.len(), spool.len(), versions.len(), jobs.len(), if quick { "" } else { " and every pair of fault points in 2 modes (deviation 2)" });
     cov.exhaustive = true;
     cov.samples = vec![json!(jobs[jobs.len() / 2].0), json!(jobs[17].0), json!({"scenario":"ahead+dirty","command":"flow","fault_at":7,"mode":"garbage"})];
     cov.set("clause_counts", all.to_json());
